@@ -330,9 +330,27 @@ def finalIdxFree : Path → Bool
   | [f] => (match f with | .idx _ => false | _ => true)
   | _ :: g :: r => finalIdxFree (g :: r)
 
-/-- no ignore path has an index before its last fragment (the predicate that excludes
-C19-multi-index-ignore) -/
+/-- no ignore path has an index before its last fragment -/
 def NoInnerIdx (ign : List Path) : Prop := ∀ g, g ∈ ign → innerIdxFree g = true
+
+/-- more than one fragment -/
+def isLong : Path → Bool
+  | _ :: _ :: _ => true
+  | _ => false
+
+/-- the indexes before the last fragment are not negative -/
+def innerIdxNonneg : Path → Bool
+  | [] => true
+  | [_] => true
+  | f :: g :: r => (match f with | .idx i => decide (0 ≤ i) | _ => true) && innerIdxNonneg (g :: r)
+
+/-- at most one ignore path has more than one fragment, and no index before its last fragment is
+negative (the documented use: one path through an array index) -/
+def AtMostOneLong (ign : List Path) : Prop :=
+  (ign.filter isLong).length ≤ 1 ∧ ∀ g, g ∈ ign → innerIdxNonneg g = true
+
+/-- the ignore sets that C19-multi-index-ignore cannot touch -/
+def IdxSafe (ign : List Path) : Prop := NoInnerIdx ign ∨ AtMostOneLong ign
 
 /-- no ignore path ends in an index (the predicate that excludes C19-ignored-length-index) -/
 def NoFinalIdx (ign : List Path) : Prop := ∀ g, g ∈ ign → finalIdxFree g = true
